@@ -239,6 +239,31 @@ def _impl(tier, seed, search):
         Th = np.eye(4); Th[:3, :3] = H; Th[:3, 3] = [0.3, -1.2, 2.0]
         ok, Lg = L.noraise('log-halfturn-se3', lambda: b.trlog(Th, check=False, twist=True), dict(T=Th), 'trlog(T) with an exactly symmetric half turn')
         if ok and finite_real(Lg): L.close('exp-log-halfturn-se3', ref_exp(skewa(np.asarray(Lg, float))), Th, TOL, 3.0, dict(T=Th), sig='exp-log-se3:halfturn')
+    # ---- planar half turns written exactly (rotation block -I, sine entries exactly 0) with a translation; multi-valued pose -> twist ----
+    for k_ in range(6 if tier == 'quick' else 40):
+        tx_, ty_ = (g.normal(size=2) * 10.0 ** g.uniform(-2, 3)); Th2 = np.array([[-1.0, 0.0, tx_], [0.0, -1.0, ty_], [0.0, 0.0, 1.0]])
+        for nm_, Tq2 in (('float', Th2), ('negative zero', Th2 * np.array([[1, -1, 1], [-1, 1, 1], [1, 1, 1.0]])), ('from cos/sin(pi)', np.array([[math.cos(math.pi), -math.sin(math.pi), tx_], [math.sin(math.pi), math.cos(math.pi), ty_], [0, 0, 1.0]]))):
+            inp = dict(T=Tq2, kind=nm_)
+            ok, r = L.noraise('log-se2(half turn)', lambda: (b.trlog2(Tq2, check=False, twist=True), SE2(Tq2, check=False).log(twist=True), SE2(Tq2, check=False).Twist2().S), inp, 'trlog2 / SE2.log / SE2.Twist2 of an exact planar half turn')
+            if ok:
+                for nn_, Sv in zip(('trlog2', 'SE2.log', 'SE2.Twist2'), r):
+                    Sv = np.asarray(Sv, float).flatten()
+                    if finite_real(Sv):
+                        Mv = np.array([[0, -Sv[2], Sv[0]], [Sv[2], 0, Sv[1]], [0, 0, 0]])
+                        L.close(f'exp-log-se2(half turn):{nn_}', ref_exp(Mv), Tq2, TOL, max(1.0, float(np.hypot(tx_, ty_))), inp, what=f'exp({nn_}(T)) differs from T for a planar half turn with translation', sig='exp-log-se2:halfturn')
+                    else: L.check(f'log-se2(half turn):{nn_}:finite', False, inp, f'{nn_} of a planar half turn is not finite', sig='log-se2:nonfinite')
+    for k_ in range(4 if tier == 'quick' else 30):
+        Tm_ = [np.block([[inputs.rodrigues(axis(g), float(g.uniform(0.1, 3.0))), (g.normal(size=3) * 10.0 ** g.uniform(-1, 2)).reshape(3, 1)], [np.zeros((1, 3)), np.ones((1, 1))]]) for _ in range(3)]
+        Tm2_ = [np.array([[math.cos(a_), -math.sin(a_), x_], [math.sin(a_), math.cos(a_), y_], [0, 0, 1.0]]) for a_, x_, y_ in (g.normal(size=3), g.normal(size=3), g.normal(size=3))]
+        for nm_, call_, singles_ in (('SE3.Twist3()', lambda: [np.asarray(x_, float) for x_ in SE3(Tm_, check=False).Twist3().data], lambda: [np.asarray(SE3(x_, check=False).Twist3().S, float) for x_ in Tm_]),
+                                     ('SE3.log(twist)', lambda: [np.asarray(x_, float) for x_ in SE3(Tm_, check=False).log(twist=True)], lambda: [np.asarray(SE3(x_, check=False).log(twist=True), float) for x_ in Tm_]),
+                                     ('SE2.Twist2()', lambda: [np.asarray(x_, float) for x_ in SE2(Tm2_, check=False).Twist2().data], lambda: [np.asarray(SE2(x_, check=False).Twist2().S, float) for x_ in Tm2_]),
+                                     ('Twist3(SE3 multi)', lambda: [np.asarray(x_, float) for x_ in Twist3(SE3(Tm_, check=False)).data], lambda: [np.asarray(SE3(x_, check=False).Twist3().S, float) for x_ in Tm_])):
+            ok, r = L.noraise(f'{nm_}(multi)', lambda: (call_(), singles_()), dict(N=3), f'{nm_} on a 3-valued pose', sig=f'pose->twist(multi):raises')
+            if ok:
+                L.check(f'{nm_}(multi):len', len(r[0]) == 3, dict(N=3), f'{nm_} on 3 poses gives {len(r[0])} values', sig='pose->twist(multi)')
+                if len(r[0]) == 3:
+                    for j_ in range(3): L.close(f'{nm_}(multi)', np.asarray(r[0][j_], float).flatten(), np.asarray(r[1][j_], float).flatten(), 1e-12, max(1.0, float(np.max(np.abs(r[1][j_])))), dict(N=3, k=j_), what=f'value k of {nm_} on a multi-valued pose is not the single-valued result', sig='pose->twist(multi)')
     # ---- quarter turns about generic axes (the sine of the angle is 1 to within rounding, on either side) ----------------------
     qaxes = [np.array([x_, y_, z_], float) for x_ in range(-4, 5) for y_ in range(-4, 5) for z_ in range(-4, 5) if (x_, y_, z_) != (0, 0, 0)]
     for k_, a_ in enumerate(qaxes if tier != 'quick' else qaxes[(seed % 3)::3]):
